@@ -417,6 +417,28 @@ def run(ctx):
             judge_table(ctx, sim, cfg, os.path.join(work, "r.fits"), f"real {cfg.simulation.mode} run #{k} ({len(sim)} rows, spectrum {cfg.simulation.spectrum.id})", rng)
             ctx.distinct.add(("run", k, len(sim)))
             ctx.count("real-runs")
+        # ---- runs without a single surviving trajectory: the (empty) table still describes its run
+        for k in range(2):
+            cfg = NssConfig()
+            cfg.title, cfg.detector.name = "empty run", f"balloon {k}"
+            cfg.detector.initial_position.altitude = 33.0
+            cfg.detector.radio.snr_threshold = 0.25
+            cfg.simulation.spectrum = Simulation.PowerSpectrum(index=2.2, lower_bound=7.0, upper_bound=10.5) if k else Simulation.MonoSpectrum(log_nu_energy=9.75)
+            if k == 0:
+                cfg.simulation.mode, cfg.simulation.thrown_events = "Diffuse", 0
+            else:
+                cfg.simulation.mode, cfg.simulation.thrown_events = "Target", 50
+                cfg.simulation.target.source_DEC = float(np.radians(89.0))  # never occulted from the equator
+                cfg.simulation.target.source_obst = 600.0
+            sim, log = fullrun.compute(cfg, seed=5 + k, freeze=False)
+            if log.exception is not None:
+                ctx.exception("raises", "compute() raised for a run without surviving trajectories", log.exception, {"run": f"empty-{k}"})
+                continue
+            if len(sim) != 0:
+                ctx.obs["empty_run_not_empty"] = ctx.obs.get("empty_run_not_empty", 0) + 1
+                continue
+            judge_table(ctx, sim, cfg, os.path.join(work, "e.fits"), f"real {cfg.simulation.mode} run without a surviving trajectory (spectrum {cfg.simulation.spectrum.id})", rng)
+            ctx.count("empty-runs")
         # ---- the command-line path: `nuspacesim run cfg.toml N -o file` then `show-plot file`
         import contextlib
         import io
@@ -483,7 +505,7 @@ def run(ctx):
             ctx.distinct.add(("cli", tuple(argv), os.path.basename(out)))
     finally:
         shutil.rmtree(work, ignore_errors=True)
-    for m in ("numpy-scalars", "columns", "header", "complete", "reconstruct", "real-runs", "cli-run"):
+    for m in ("empty-runs", "numpy-scalars", "columns", "header", "complete", "reconstruct", "real-runs", "cli-run"):
         ctx.require(m)
     return ctx.finish(
         rule="tables = results_table.init(config) + synthetic columns of every stored dtype (float64, float32, int64, 2-D EFields, Time) for seeded configurations (ASCII strings, finite numbers, both spectrum types, all cloud variants, lat != lon), one third with 17-significant-digit floats and two thirds with short-text floats (for which everything must be exact), plus tables returned by real small compute() runs in both modes; a case is a distinct (configuration, table)",
